@@ -29,7 +29,7 @@ RULE = ("seeded random configurations: non-constant pilot vectors shorter than N
 REQUIRED = ["tile_checked", "tile_nonconstant_pilot", "prefix_checked:nonnegmean", "prefix_checked:assertion",
             "comparison_checked", "polling_checked", "interleave_checked", "contest_max_checked", "audit_max_checked",
             "estimate_strictly_between_1_and_N", "never_crossed_returns_N", "random_order_false_cases",
-            "contract:Assertion.find_sample_size"]
+            "contract:Assertion.find_sample_size", "raire_estimator_checked"]
 ASSUMPTIONS = ["int(1/r) is the documented spacing of assumed errors", "n_big >= 1 for interleave_values (a polling "
                "assertion has winner tally > loser tally >= 0)", "rates are always passed explicitly for comparison audits"]
 N_CASES = {"quick": 64000, "thorough": 512000}
@@ -60,7 +60,7 @@ def first_crossing(hist, alpha, N):
 
 def run_shard(spec, rec):
     rng = random.Random(f"c16-{spec['seed']}-{spec['shard']}")
-    kinds = ("tile", "tile", "prefix", "comparison", "comparison", "polling", "interleave", "contest", "audit")
+    kinds = ("tile", "tile", "prefix", "comparison", "comparison", "polling", "interleave", "contest", "audit", "raire_estimator")
     for i in range(spec["n"]):
         kind = kinds[i % len(kinds)]
         case = {"kind": kind, "cseed": rng.randrange(10 ** 9), "Nmax": spec["Nmax"]}
@@ -86,7 +86,8 @@ def run_case(case, rec):
     rng = random.Random(case["cseed"])
     kind = case["kind"]
     return {"tile": run_tile, "prefix": run_prefix, "comparison": run_comparison, "polling": run_polling,
-            "interleave": run_interleave, "contest": run_contest, "audit": run_audit}[kind](case, rng, rec)
+            "interleave": run_interleave, "contest": run_contest, "audit": run_audit,
+            "raire_estimator": run_raire_estimator}[kind](case, rng, rec)
 
 
 def gen_pilot(rng, u, t, N):
@@ -418,3 +419,55 @@ def run_audit(case, rng, rec):
         overall = max(overall, want)
     if total != overall:
         rec.violation("c16.max", "audit_estimate_is_not_the_largest_contest_estimate", {"returned": total, "largest": overall})
+
+
+def run_raire_estimator(case, rng, rec):
+    """shangrla.raire.sample_estimator.sample_size: first crossing of its own ALPHA test on the assumed data."""
+    from types import SimpleNamespace
+    from shangrla.core.Audit import Assertion
+    from shangrla.core.NonnegMean import NonnegMean
+    from shangrla.raire.sample_estimator import sample_size as raire_ss
+    polling = rng.random() < 0.4
+    N = rng.choice((30, 100, 400, 1000))
+    alpha = rng.choice((0.05, 0.1, 0.3))
+    r1, r2 = rng.choice(RATES), rng.choice(RATES)
+    if polling:
+        tw = rng.randint(N // 2 + 1, N)
+        tl = rng.randint(0, N - tw)
+        to = N - tw - tl
+        mean = (tw + 0.5 * to) / N
+    else:
+        mean = 0.5 + rng.choice((2 / N, 0.01, 0.05, 0.1, 0.25)) / 2
+        tw = tl = to = 0
+    args = SimpleNamespace(erate1=r1, erate2=r2, rlimit=alpha, reps=None, seed=rng.randrange(10 ** 6))
+    with np.errstate(all="ignore"):
+        ok, got = rec.guard("c16.call:raire.sample_estimator.sample_size", raire_ss, mean, tw, tl, to, args, N, 1, polling)
+        if not ok:
+            rec.case(case, nontrivial=False)
+            return
+        margin = 2 * mean - 1
+        u = 2 / (2 - margin)
+        if polling:
+            pop = list(Assertion.interleave_values(tl, to, tw, big=1))
+            test = NonnegMean(test=NonnegMean.alpha_mart, estim=NonnegMean.shrink_trunc, N=N, u=u, eta=mean)
+        else:
+            big, small = 1 / (2 - margin), 0.5 / (2 - margin)
+            pop = [big] * N
+            if r1:
+                for j in range(0, N, int(1 / r1)):
+                    pop[j] = small
+            if r2:
+                for j in range(0, N, int(1 / r2)):
+                    pop[j] = 0.0
+            test = NonnegMean(test=NonnegMean.alpha_mart, estim=NonnegMean.optimal_comparison, N=N, u=u, eta=mean)
+        pop = (pop * (N // len(pop) + 1))[:N]
+        ok, res = rec.guard("c16.call:test", test.test, np.array(pop, dtype=float))
+        if not ok:
+            return
+    want = first_crossing(np.asarray(res[1], dtype=float), alpha, N)
+    rec.case(dict(case, N=N, mean=mean, polling=polling, r1=r1, r2=r2, alpha=alpha), nontrivial=(1 < want < N))
+    rec.count("raire_estimator_checked")
+    observe(rec, want, N)
+    if got != want:
+        rec.violation("c16.raire", "raire_estimate_is_not_first_crossing_on_assumed_data",
+                      {"estimate": got, "first_crossing": want, "N": N, "mean": mean, "polling": polling, "r1": r1, "r2": r2, "alpha": alpha})
